@@ -419,7 +419,7 @@ func r046(c *Ctx) {
 			roots = append(roots, e.Fn)
 		}
 	}
-	served := p.KG().Reach(roots, nil)
+	served := p.KG().ReachLive(roots, nil)
 	for _, fn := range p.KetoFuncs("internal/relationtuple") {
 		if !served.Has(fn) {
 			continue
